@@ -118,6 +118,7 @@ static bool body_lane(const Case &c, Ctx &ctx)
             if ((u128)(lo - (hi >> 32)) + (u128)(hi & 0xFFFFFFFFull) * 0xFFFFFFFFull >> 64) { ctx.cls("lane:reduce-wrap"); nt = true; }
             if (A >= PR || B >= PR) { ctx.cls("lane:noncanonical-operand"); nt = true; }
             if (r >= PR) { ctx.cls("lane:raw-result>=p"); nt = true; }
+            if (k->cons == C_B_8 && ((((A >> 32) * B) & 0xFFFFFFFFull) + (((A & 0xFFFFFFFFull) * B) >> 32)) >> 32) { ctx.cls("lane:72-bit-carry-into-high-part"); nt = true; }
             if (r % PR != w) return ctx.fail("mul:" + lane + " got " + hx(r) + " want " + hx(w));
         } break;
         case CANON: {
@@ -130,6 +131,7 @@ static bool body_lane(const Case &c, Ctx &ctx)
             u128 got = ((u128)o1[i] << 64) | o2[i];
             if (((A & 0xFFFFFFFFull) * (B >> 32) + (((A & 0xFFFFFFFFull) * (B & 0xFFFFFFFFull)) >> 32)) >> 32 && ((A >> 32) * (B & 0xFFFFFFFFull)) >> 32) nt = true;
             if ((uint64_t)(n >> 64) == 0) ctx.cls("lane:product-fits-64"); else { ctx.cls("lane:product-128"); nt = true; }
+            if (k->cons == C_B_8 && ((((A >> 32) * B) & 0xFFFFFFFFull) + (((A & 0xFFFFFFFFull) * B) >> 32)) >> 32) { ctx.cls("lane:72-bit-carry-into-high-part"); nt = true; }
             if (got != n) return ctx.fail("product:" + lane + " got " + hx(o1[i]) + ":" + hx(o2[i]) + " want " + hx((uint64_t)(n >> 64)) + ":" + hx((uint64_t)n));
             if (k->kind == PROD72 && (o1[i] >> 32)) return ctx.fail("72-bit product: high word not below 2^32" + lane);
         } break;
@@ -160,6 +162,20 @@ static rc::Gen<std::vector<uint64_t>> gen_lane(const Kern *k)
                       : (k->kind == RED128 || k->kind == RED96) ? rc::gen::weightedOneOf<g::P2>({{2, g::pair_hilo()}, {2, g::pair_indep()}, {1, g::pair_sub_solved()}})
                       : (k->kind == CANON) ? rc::gen::pair(rc::gen::weightedOneOf<uint64_t>({{2, g::fe()}, {2, g::delta(PR, 8)}, {1, g::delta(PR ^ MSBv, 8)}}), g::uni64())
                       : g::pair_mul();
+    if (k->cons == C_B_8) {
+        // 64x8-bit products: solve for the carry chain of the 72-bit schoolbook product. With a_l close to 2^32 the term (a_l*b)>>32 is b-1;
+        // a_h = floor((j*2^32 - 1)/b) makes low32(a_h*b) = 2^32 - r with r in [1,b], so low32(a_h*b) + ((a_l*b)>>32) reaches / straddles 2^32
+        // (the carry from the low partial product into bits 64..71), which uniform operands meet with probability about b/2^33
+        auto solved72 = rc::gen::apply([](uint64_t bsel, uint64_t jsel, uint64_t eps, uint64_t dl) -> g::P2 {
+            uint64_t b = 1 + bsel % 255; if (bsel & 0x100) b = 255 - (bsel >> 9) % 4;
+            uint64_t j = 1 + jsel % b;
+            uint64_t ah = (uint64_t)((((unsigned __int128)j << 32) - 1 - (eps % 3)) / b) & 0xFFFFFFFFull;
+            uint64_t al = 0xFFFFFFFFull - (dl % 5);
+            if (dl & 0x100) al = (uint64_t)((((unsigned __int128)1 << 32) * (1 + (dl >> 9) % b)) / b) & 0xFFFFFFFFull; // (a_l*b)>>32 just below / at a multiple
+            return g::P2{(ah << 32) | al, b};
+        }, g::uni64(), g::uni64(), g::uni64(), g::uni64());
+        pg = rc::gen::weightedOneOf<g::P2>({{3, pg}, {3, solved72}});
+    }
     int L = k->L;
     return rc::gen::map(rc::gen::container<std::vector<g::P2>>(L, pg), [L](const std::vector<g::P2> &ps) {
         std::vector<uint64_t> v(2 * L);
@@ -224,6 +240,16 @@ static bool body_mat(const Case &c, Ctx &ctx)
                 int nc = 0; for (int j = 0; j < 3; j++) if (raw_mul_lane(st[s][4 * j + i], co[12 * r + 4 * j + i].fe) >= PR) nc++;
                 if (nc > maxnc) maxnc = nc;
             }
+        }
+        if (k->eight) {
+            // 8-bit kernels: 72-bit products; class by the integer sums the kernel forms per lane
+            int rows = k->ncoef / 12; bool hsum = false, lband = false;
+            for (int s = 0; s < S; s++) for (int r = 0; r < rows; r++) for (int i = 0; i < 4; i++) {
+                uint64_t hs = 0; int band = 0;
+                for (int j = 0; j < 3; j++) { unsigned __int128 pr = (unsigned __int128)st[s][4 * j + i] * co[12 * r + 4 * j + i].fe; hs += (uint64_t)(pr >> 64); if ((uint64_t)pr > 0xFFFFFFFF00000000ull) band++; }
+                if (hs > 255) hsum = true; if (band >= 2) lband = true;
+            }
+            if (hsum) ctx.nt("mat8:high-parts-sum>255"); if (lband) ctx.nt("mat8:>=2-low-parts-above-0xFFFFFFFF00000000-in-a-lane");
         }
         if (maxnc >= 2) ctx.nt("mat:>=2-noncanonical-products-in-a-lane"); else if (maxnc == 1) ctx.nt("mat:1-noncanonical-product"); else if (nc_state) ctx.nt("mat:noncanonical-state"); else ctx.cls("mat:all-canonical");
         if (want_aligned) ctx.cls("mat:aligned-variant"); else ctx.cls(misalign ? "mat:misaligned-array" : "mat:array-ends-at-guard-page");
@@ -314,8 +340,30 @@ static rc::Gen<std::vector<uint64_t>> gen_mat(const MKern *k)
     int S = k->S, nc = k->ncoef;
     // per (state element t, row r) pair generator; coefficient index 12*r + t is paired with state element t (both states share coefficients)
     auto pg = rc::gen::weightedOneOf<g::P2>({{3, g::pair_indep()}, {4, pair_prod_band()}, {2, g::pair_mul_residue()}, {1, g::pair_hilo()}});
-    return rc::gen::apply([S, nc](const std::vector<g::P2> &ps, const std::vector<uint64_t> &extra, uint64_t mode) {
+    const bool eight = k->eight;
+    return rc::gen::apply([S, nc, eight](const std::vector<g::P2> &ps, const std::vector<uint64_t> &extra, uint64_t mode) {
         std::vector<uint64_t> v(12 * S + nc);
+        if (eight && (mode & 0x600)) {
+            // 8-bit kernels: coefficients m in [1,255] and state elements x = floor((k*2^64 - d)/m), k <= m: the 72-bit product x*m has a
+            // high part k-1 (up to 254: sums of three high parts exceed 255) and a low word within d of 2^64 (non-canonical low parts,
+            // several in the same output lane); the remaining rows get independent 8-bit coefficients
+            int rows = nc / 12, row = (int)((mode >> 12) % rows);
+            for (int i = 0; i < nc; i++) v[12 * S + i] = extra[i % extra.size()] & 0xFF;
+            for (int t = 0; t < 12; t++) {
+                uint64_t m = 1 + (ps[t].second % 255), kk = (mode & 0x200) ? m : 1 + (ps[t].first % m), d = 1 + (extra[t] % ((mode & 0x400) ? 41 : 0xFFFFFFFFull));
+                unsigned __int128 T = ((unsigned __int128)kk << 64) - d;
+                uint64_t x = (uint64_t)(T / m);
+                if ((mode >> 48) % 3 == 0) { // alternatively: the carry inside the 72-bit product (see gen_lane)
+                    uint64_t j = 1 + (ps[t].first % m);
+                    x = (((uint64_t)((((unsigned __int128)j << 32) - 1) / m) & 0xFFFFFFFFull) << 32) | (0xFFFFFFFFull - (extra[t] % 3));
+                }
+                bool crafted = ((mode >> (16 + t)) & 1) || (mode & 0x800);
+                v[t] = crafted ? x : extra[20 + t];
+                if (S == 2) v[12 + t] = ((mode >> (32 + t)) & 1) ? x : extra[40 + t];
+                if (crafted || S == 2) v[12 * S + 12 * row + t] = m;
+            }
+            return v;
+        }
         // mode: which row's coefficients are solved against the state (others independent draws from extra)
         int rows = nc / 12;
         for (int t = 0; t < 12; t++) v[t] = ps[t].first;
